@@ -804,6 +804,37 @@ func (e *env) decoderSweep() {
 		}
 		e.out.Emit("hexstr "+hx.Hex(hs), hobs)
 	}
+	// ValidateModuleName (pattern regenerated into Gen/C20.lean) and Byte32ToString vs the Lean model: boundary lengths
+	// 0,1,2,33,34 and every character class
+	nameAlphabet := "abzAZ09/_-. :\x00\xc3\xa9\xff\n"
+	for i := 0; i < n/4; i++ {
+		l := hx.Pick(e.rng, []int{0, 1, 2, 3, 32, 33, 34, e.rng.Intn(40)})
+		b := make([]byte, l)
+		for j := range b {
+			if e.rng.Intn(12) == 0 {
+				b[j] = nameAlphabet[e.rng.Intn(len(nameAlphabet))]
+			} else {
+				b[j] = "abcxyzABCXYZ0189/"[e.rng.Intn(17)]
+			}
+		}
+		if l > 0 && e.rng.Intn(4) != 0 {
+			b[0] = "aZq"[e.rng.Intn(3)]
+		}
+		obs := "ok"
+		if crosschaintypes.ValidateModuleName(string(b)) != nil {
+			obs = "err"
+		}
+		e.out.Emit("modname "+hx.Hex(b), obs)
+		e.out.Nontrivial(fmt.Sprintf("modname %s %d", obs, l))
+		var arr [32]byte
+		k := e.rng.Intn(33)
+		for j := 0; j < k; j++ {
+			if e.rng.Intn(4) != 0 {
+				arr[j] = byte(1 + e.rng.Intn(255))
+			}
+		}
+		e.out.Emit("b32s "+hx.Hex(arr[:]), hx.HexS(fxtypes.Byte32ToString(arr)))
+	}
 	// signature → address helper used by the confirm handlers (indexing signature[64])
 	for l := 0; l <= 70; l++ {
 		sig := make([]byte, l)
@@ -1318,6 +1349,8 @@ func TestC20(t *testing.T) {
 	e.msgSweep()
 	e.memoSweep()
 	e.precompileSweep()
+	e.precompileRunSweep(t)
+	e.handlerSweep(t)
 	e.decoderSweep()
 	e.feeSweep()
 	e.hostileAnte()
